@@ -78,7 +78,7 @@ func RunRetrieve(c *Ctx) {
 				// scripted fetch outcomes before the height can be read
 				var script []string
 				for k := rng.Intn(3); k > 0; k-- {
-					o := []string{"future", "errlist", "errchunk:0", "errlist", "future"}[rng.Intn(5)]
+					o := []string{"future", "errlist", "errchunk:0", "errlist", "future", "deadline", "canceled"}[rng.Intn(7)]
 					if big && rng.Intn(2) == 0 {
 						o = "errchunk:1"
 					}
